@@ -398,6 +398,17 @@ func convertType(ast *parser.Type, node NodeMeta) Type {
 	return t
 }
 
+// The item type of a vector, array, map or stream may itself be an optional or a union given in one piece
+// ("int?*", "items: 'int?'"). It becomes the cases of the container, exactly as when the cases are spelled
+// out ("items: [null, int]"), so that the spellings of a model yield the same type.
+func itemCases(item Type, nodeMeta NodeMeta) TypeCases {
+	if gt, ok := item.(*GeneralizedType); ok && gt.Dimensionality == nil && len(gt.Cases) > 1 {
+		return gt.Cases
+	}
+
+	return TypeCases{&TypeCase{NodeMeta: nodeMeta, Type: item}}
+}
+
 func applyTypeTail(inner Type, tail parser.TypeTail) Type {
 	nodeMeta := *inner.GetNodeMeta()
 	gt := GeneralizedType{
@@ -408,17 +419,19 @@ func applyTypeTail(inner Type, tail parser.TypeTail) Type {
 	if tail.Optional {
 		gt.Cases = append(TypeCases{&TypeCase{NodeMeta: nodeMeta}}, gt.Cases...)
 	} else if tail.MapValue != nil {
-		gt.Cases = TypeCases{&TypeCase{NodeMeta: nodeMeta, Type: convertType(tail.MapValue, nodeMeta)}}
+		gt.Cases = itemCases(convertType(tail.MapValue, nodeMeta), nodeMeta)
 		gt.Dimensionality = &Map{
 			NodeMeta: nodeMeta,
 			KeyType:  inner,
 		}
 	} else if tail.Vector != nil {
+		gt.Cases = itemCases(inner, nodeMeta)
 		gt.Dimensionality = &Vector{
 			NodeMeta: nodeMeta,
 			Length:   tail.Vector.Length,
 		}
 	} else if tail.Array != nil {
+		gt.Cases = itemCases(inner, nodeMeta)
 		a := Array{NodeMeta: nodeMeta}
 
 		if len(tail.Array.Dimensions) > 0 {
@@ -828,7 +841,7 @@ func UnmarshalTypeCases(value *yaml.Node) (TypeCases, error) {
 			return nil, parseError(value, "type null is only supported in unions")
 		}
 
-		cases = append(cases, &TypeCase{Type: t, NodeMeta: createNodeMeta(value)})
+		cases = itemCases(t, createNodeMeta(value))
 	}
 
 	return cases, nil
